@@ -76,7 +76,6 @@ def handle : Handler := fun op inp impl => do
       (if gCsPausedLost u then ["guard:csPausedLost"] else []) ++
       (if flag inp "lateRelease" then ["guard:releaseWhileFinalising"] else []) ++
       (if flag inp "earlyExit" then ["guard:exitBeforeBatchRelease"] else []) ++
-      (if flag inp "cursorCarried" then ["guard:bgCursorCarried"] else []) ++
       (match l? with | some l => (if resumeIssued pre post && l == .ro then ["resume-issued"] else []) ++
                                   (if settingsReleased pre post then ["settings-released"] else []) | none => [])
     match l? with
@@ -123,7 +122,7 @@ def handle : Handler := fun op inp impl => do
     let delete := last == "delete"
     let common := (if flag inp "lateRelease" then ["guard:releaseWhileFinalising"] else []) ++
       (if flag inp "earlyExit" then ["guard:exitBeforeBatchRelease"] else []) ++
-      (if flag inp "cursorCarried" then ["guard:bgCursorCarried"] else []) ++ (if gCsPausedLost u then ["guard:csPausedLost"] else [])
+      (if gCsPausedLost u then ["guard:csPausedLost"] else [])
     if rollback then
       return { holds := [("C10.bg_rollback_completes", done), ("C06.bg_rollback_completes", done)],
                tags := ["exit", "exit:rollback", if done then "exit-done" else "exit-stuck"] ++
